@@ -27,6 +27,7 @@ def run(repo, res, tier):
     hookrules.rule_aggcls(repo, res, rule="AGG")
     an = langrules.analyse(repo)
     langrules.rule_tb8(repo, res, an)
+    langrules.rule_nondec_spec(repo, res, an)
     langrules.rule_kw_excl(repo, res, an)
     langrules.rule_dash(repo, res, an)
     langrules.rule_fold(repo, res, an)
